@@ -95,3 +95,16 @@ Proof. exact (@cylinder_closed_exact T H). Qed.
 Theorem C04_strip_exact : forall u v (k : nat) ra rb, (1 <= k)%nat -> (ra + Z.of_nat k <= rb)%Z ->
   (mcnt u v (map (quad (Z.of_nat k) ra rb) (nseq k)) <= 1)%nat.
 Proof. intros u v k ra rb Hk Hd. exact (proj1 (strip_cnt u v k ra rb Hk Hd)). Qed.
+
+(* ---- the thread mesh (threaded_rod, tap, hex_bolt, hex_nut): two start triangles, eight triangles per step and two end
+        triangles cancel ring by ring; no boundary for every number of steps >= 1, every lead-in/out, both hands ---- *)
+From SCAD Require Import Text.Chars Text.Tree Parts.Thread Parts.Thread_closed_proofs.
+Theorem C04_thread_mesh_indices {T} `{Num T} : forall (d_min d_maj pitch length : T) (segments : Z) (li lo : T) (left : bool),
+  let ns := mesh_steps d_min d_maj pitch length segments in
+  snd (thread_mesh d_min d_maj pitch length segments li lo left) =
+  start_faces left ++ flat_map (fun s => ring_faces left (s * 4)%Z) (nseq (Z.to_nat (ns - 1))) ++ map (fun k => (k + (ns - 2) * 4)%Z) (end_faces0 left).
+Proof. exact (@thread_mesh_indices T H). Qed.
+Theorem C04_thread_mesh_closed {T} `{Num T} : forall (d_min d_maj pitch length : T) (segments : Z) (li lo : T) (left : bool),
+  (1 <= mesh_steps d_min d_maj pitch length segments)%Z ->
+  closed_net (triples (snd (thread_mesh d_min d_maj pitch length segments li lo left)) 0).
+Proof. exact (@thread_mesh_closed T H). Qed.
